@@ -8,7 +8,7 @@
                                                             async-broadcast-0.7.2/src/lib.rs
                async_channel::bounded(1)                    async-channel-2.5.0/src/lib.rs
 
-   Executable; proofs live in NotifiedProofs.v / NotifiedSpec.v.  Everything is single-threaded
+   Executable; proofs live in Notified{Base,Tokio,Smol,Spec,Proofs,Handles}.v.  Everything is single-threaded
    and driven poll by poll (one operation at a time), exactly like the harness
    harness/src/bin/notified.rs; wakers are therefore not modelled (a poll either finds something
    or reports Pending), locks are not modelled, and the u64 position counters are unbounded Z
